@@ -66,7 +66,7 @@ class JP_Abs(JumpInstruction):
 
         first, *rest = self.operands()
         assert len(rest) == 0, "Expected no extra operands"
-        if isinstance(first, ImmOperand):
+        if isinstance(first, ImmOperand) and not isinstance(first, Pointer):
             # absolute address
             assert first.value is not None, "Value not set"
             dest = first.value
@@ -76,6 +76,12 @@ class JP_Abs(JumpInstruction):
                 BranchType.TrueBranch if self._cond else BranchType.UnconditionalBranch
             )
             info.add_branch(branch_type, dest)
+        else:
+            # JP (n) / JP r3: the destination is read from internal memory or a
+            # register at run time, so there is no static target (and no
+            # fallthrough).  IMem20 is an ImmOperand subclass whose .value is the
+            # operand's address, not the jump target.
+            info.add_branch(BranchType.UnresolvedBranch)
 
 
 class JP_Rel(JumpInstruction):
